@@ -255,7 +255,6 @@ fn check_tape(tape: &[u8], gates: &Gates, stats: &mut Stats, counting: bool, cli
             "TYPE\nkx_si : INT := 5;\nEND_TYPE\n",
             "TYPE\nkx_s2 : STRUCT\na : INT;\nEND_STRUCT;\nEND_TYPE\n\nPROGRAM kx_p3\nVAR\ns : kx_s2;\nEND_VAR\ns.a := 1;\nEND_PROGRAM\n",
             "FUNCTION_BLOCK kx_inner\nVAR_INPUT\ni : INT;\nEND_VAR\nEND_FUNCTION_BLOCK\n\nFUNCTION_BLOCK kx_outer\nVAR CONSTANT\nf : kx_inner;\nEND_VAR\nEND_FUNCTION_BLOCK\n",
-            "FUNCTION kx_fn : INT\nVAR CONSTANT\nr : INT(1..5) := 2;\nEND_VAR\nkx_fn := 1;\nEND_FUNCTION\n",
         ];
         let u = (*choice.pick(UNSUPPORTED)).to_string();
         // at the front, at the back or somewhere between the declarations of the unit
@@ -267,6 +266,9 @@ fn check_tape(tape: &[u8], gates: &Gates, stats: &mut Stats, counting: bool, cli
     let base = observe_analyze(&canonical, &chunks).map_err(|(k, d)| Failure::new("canonical", &k, d, json!({"chunks": chunks})))?;
     if base.parse_failed {
         if counting {
+            if std::env::var("VERIF_DEBUG_HEALTH").is_ok() {
+                eprintln!("HEALTH-FAILURE chunks:\n{}\n-----", chunks.join("\n~~~\n"));
+            }
             stats.class("generator-health-failure");
         }
         return Ok(());
@@ -430,6 +432,9 @@ fn check_large_set(tape: &[u8], gates: &Gates, stats: &mut Stats, counting: bool
     let base = observe_analyze(&canonical, &chunks).map_err(|(k, d)| Failure::new("large-set-canonical", &k, d, json!({"chunks": chunks})))?;
     if base.parse_failed {
         if counting {
+            if std::env::var("VERIF_DEBUG_HEALTH").is_ok() {
+                eprintln!("HEALTH-FAILURE chunks:\n{}\n-----", chunks.join("\n~~~\n"));
+            }
             stats.class("generator-health-failure");
         }
         return Ok(());
